@@ -1,6 +1,6 @@
 # Table consumed by gen_manifest.py.  One chk(...) per claimed property.
 NOTES = ("Technique family: deterministic simulation with fault injection only; six properties are pure functions of their input and are listed as not applicable (DESIGN.md section 7). "
-         "Genuine defects found by the checks are recorded in known_findings.json (fixed: F1-F12 as fix: commits in /repo; known: K2, K3).")
+         "Genuine defects found by the checks are recorded in known_findings.json (fixed: F1-F14 as fix: commits in /repo; known: K2, K3).")
 
 chk("C06",
     "deterministic simulation: seeded operation histories (edges, marks, cycle detection, pickle restart) on the real EquivalenceDB vs a reachability reference model",
@@ -17,7 +17,7 @@ chk("C03",
 chk("C11",
     "deterministic simulation: seeded delivery schedules of pumping integer universes (and universes recorded by simulated forest-DB searches) into the real ForestRuleExtractor vs reference LFP checks",
     "Seeded exploration; the extracted rule set is checked to be a sub-multiset of what was delivered, one rule per class, closed, productive, 1-minimal and free of avoidable reverse rules.",
-    "Trusted: dsim/ref/lfp.py. Integer universes <= 14 labels; search layer bounded by the words world.",
+    "Trusted: dsim/ref/lfp.py. Integer universes <= 14 labels; search layer bounded by the words world; there every key that enters the table is also compared with the key derived from the world (count and shifts).",
     "6.11")
 
 chk("C15",
